@@ -2,6 +2,7 @@ SPECIFICATION Spec
 CONSTANTS
   N = 3
   Pattern = 1
+  Symmetric = TRUE
 INVARIANT Settled
 INVARIANT NetsSane
 INVARIANT CompleteOnce
